@@ -814,3 +814,170 @@ def mixed_worklist_ends(eng, rep, rule: str, modules: Iterable[str], consequence
                     rep.ok(rule, f.file, f.qual, "%s in a work-list loop" % D, "expansions are all put back at one end")
     rep.ok(rule, "-", "-", "deque work-list loops", "%d judged" % n)
     return n
+
+
+def dotted_text_as_path_component(eng, rep, rule: str, modules: Iterable[str], consequence: str) -> int:
+    """a text made with ".".join(...) (a dotted package name) used as ONE component of a path (dir / text, os.path.join(dir, text),
+    dir.joinpath(text)): the dots are not directory separators, so `a.b` is looked up as a directory literally called "a.b" """
+    from ..dataflow import Defs
+    prog = eng.prog
+    n = 0
+
+    def is_dotjoin(e) -> bool:
+        return isinstance(e, ast.Call) and isinstance(e.func, ast.Attribute) and e.func.attr == "join" and isinstance(e.func.value, ast.Constant) and e.func.value.value == "."
+
+    fs = _funcs_in(eng, modules)
+    # record fields that are filled with such a text
+    dotted_fields: Set[str] = set()
+    for f in fs:
+        for c in walk_local(f.node):
+            if not isinstance(c, ast.Call):
+                continue
+            ci = None
+            if isinstance(c.func, ast.Name) and c.func.id == "cls" and f.cls is not None:
+                ci = f.cls
+            elif isinstance(c.func, (ast.Name, ast.Attribute)):
+                r = prog.resolve_expr_symbol(f.module, f, c.func)
+                if r and r[0] == "class" and r[1] in prog.classes:
+                    ci = prog.classes[r[1]]
+            if ci is None:
+                continue
+            fields = _record_fields(eng, ci) or []
+            for i, a in enumerate(c.args):
+                if is_dotjoin(a) and i < len(fields):
+                    dotted_fields.add(fields[i])
+            for k in c.keywords:
+                if k.arg and is_dotjoin(k.value):
+                    dotted_fields.add(k.arg)
+    for f in fs:
+        defs = None
+        local_dotted = set()
+        for st in walk_local(f.node):
+            if isinstance(st, ast.Assign) and len(st.targets) == 1 and isinstance(st.targets[0], ast.Name) and is_dotjoin(st.value):
+                local_dotted.add(st.targets[0].id)
+
+        def dotted_operand(e) -> Optional[str]:
+            if is_dotjoin(e):
+                return norm(e, 30)
+            if isinstance(e, ast.Name) and e.id in local_dotted:
+                return e.id
+            if isinstance(e, ast.Attribute) and e.attr in dotted_fields:
+                return norm(e, 30)
+            return None
+        for x in walk_local(f.node):
+            comps = []
+            if isinstance(x, ast.BinOp) and isinstance(x.op, ast.Div):
+                comps = [x.left, x.right]
+            elif isinstance(x, ast.Call) and ((dotted(x.func) or "").endswith("path.join") or (isinstance(x.func, ast.Attribute) and x.func.attr == "joinpath")):
+                comps = [a for a in x.args if not isinstance(a, ast.Starred)]
+            hits = [h for h in (dotted_operand(c_) for c_ in comps) if h]
+            if comps and (hits or any(isinstance(c_, ast.Attribute) and c_.attr in dotted_fields for c_ in comps)):
+                n += 1
+            if hits:
+                rep.violation(rule, f.file, f.qual, norm(x, 60), "'%s' is a dotted name (made with \".\".join) and is used as one path component: %s" % (hits[0], consequence))
+    rep.ok(rule, "-", "-", "dotted names used in path joins", "%d judged" % n)
+    return n
+
+
+def stale_derived_field(eng, rep, rule: str, modules: Iterable[str], consequence: str) -> int:
+    """dataclasses.replace(obj, F=new) on a dataclass whose __post_init__ derives field D from F only while D is still unset
+    (`if self.D is None: self.D = g(self.F)`): replace() hands the OLD D to the constructor, the condition is false, and the
+    copy keeps a D that belongs to the old F"""
+    from ..types_lite import members
+    prog, T = eng.prog, eng.T
+    derived: Dict[str, List[Tuple[str, Set[str]]]] = {}  # class qual -> [(D, {F...})]
+    for ci in prog.classes.values():
+        pi = ci.methods.get("__post_init__")
+        if pi is None:
+            continue
+        for st in walk_local(pi.node):
+            if isinstance(st, ast.If) and isinstance(st.test, ast.Compare) and len(st.test.ops) == 1 and isinstance(st.test.ops[0], ast.Is) and isinstance(st.test.comparators[0], ast.Constant) and st.test.comparators[0].value is None and isinstance(st.test.left, ast.Attribute) and isinstance(st.test.left.value, ast.Name) and st.test.left.value.id == "self":
+                D = st.test.left.attr
+                for b in st.body:
+                    if isinstance(b, ast.Assign) and len(b.targets) == 1 and norm(b.targets[0]) == "self." + D:
+                        Fs = {x.attr for x in ast.walk(b.value) if isinstance(x, ast.Attribute) and isinstance(x.value, ast.Name) and x.value.id == "self" and x.attr != D and x.attr in ci.ann_fields}
+                        if Fs:
+                            derived.setdefault(ci.qual, []).append((D, Fs))
+    n = 0
+    for f in _funcs_in(eng, modules):
+        ft = None
+        for c in walk_local(f.node):
+            if not (isinstance(c, ast.Call) and (dotted(c.func) or "").split(".")[-1] == "replace" and c.args and (dotted(c.func) or "") in ("replace", "dataclasses.replace")):
+                continue
+            obj = c.args[0]
+            K = None
+            if isinstance(obj, ast.Name) and obj.id == "self" and f.cls is not None:
+                K = f.cls.qual
+            else:
+                ft = ft or T.fn(f)
+                insts = [u[1] for u in members(ft.of(obj)) if u[0] == "inst"]
+                K = insts[0] if len(insts) == 1 else None
+            if K not in derived:
+                continue
+            n += 1
+            kws = {k.arg for k in c.keywords if k.arg}
+            bad = [(D, Fs) for D, Fs in derived[K] if (Fs & kws) and D not in kws]
+            if bad:
+                D, Fs = bad[0]
+                rep.violation(rule, f.file, f.qual, norm(c, 70), "%s.__post_init__ works out '%s' from '%s' only while '%s' is None; replace() passes the old '%s' along with the new '%s', so the copy keeps the '%s' of the object it was copied from: %s" % (K.split(".")[-1], D, "', '".join(sorted(Fs & kws)), D, D, "', '".join(sorted(Fs & kws)), D, consequence))
+            else:
+                rep.ok(rule, f.file, f.qual, norm(c, 70), "derived fields are reset or not affected")
+    rep.ok(rule, "-", "-", "dataclasses.replace on classes with conditionally derived fields", "%d judged" % n)
+    return n
+
+
+# facts about lark (third-party, not in the repository): classes whose `line` / `column` are the sentinel -1
+LARK_NO_POSITION = {"UnexpectedEOF"}
+LARK_COVERS_EOF = {"UnexpectedInput", "LarkError", "ParseError", "Exception", "BaseException"} | LARK_NO_POSITION
+
+
+def lark_sentinel_position(eng, rep, rule: str, modules: Iterable[str]) -> int:
+    """a line/column read from a lark exception that can be UnexpectedEOF (whose line and column are -1) and turned into a
+    position without ever being compared with anything: the error then cites line -1"""
+    n = 0
+    for f in _funcs_in(eng, modules):
+        # variables that hold such an exception: except-handler names and annotated parameters
+        holders: List[Tuple[str, str, List[ast.AST]]] = []   # (variable, class, scope in which it holds the exception)
+        for p in f.params:
+            ann = ast.unparse(p.annotation).split(".")[-1] if p.annotation is not None else ""
+            if ann in LARK_COVERS_EOF and ann not in ("Exception", "BaseException"):
+                holders.append((p.arg, ann, list(f.node.body)))
+        for h in walk_local(f.node):
+            if isinstance(h, ast.ExceptHandler) and h.name and h.type is not None:
+                names = [(dotted(e) or "").split(".")[-1] for e in (h.type.elts if isinstance(h.type, ast.Tuple) else [h.type])]
+                cov = [nm for nm in names if nm in LARK_COVERS_EOF and nm not in ("Exception", "BaseException")]
+                if cov:
+                    holders.append((h.name, cov[0], list(h.body)))
+        if not holders:
+            continue
+        for v, cls, scope in holders:
+            nodes = [x for b in scope for x in ast.walk(b)]
+            reads = []
+            for st in nodes:
+                if isinstance(st, ast.Attribute) and st.attr in ("line", "column") and isinstance(st.value, ast.Name) and st.value.id == v:
+                    reads.append(st)
+                elif isinstance(st, ast.Call) and dotted(st.func) == "getattr" and len(st.args) >= 2 and isinstance(st.args[0], ast.Name) and st.args[0].id == v and isinstance(st.args[1], ast.Constant) and st.args[1].value in ("line", "column"):
+                    reads.append(st)
+            if not reads:
+                continue
+            n += 1
+            bound = set()
+            for st in nodes:
+                if isinstance(st, ast.Assign) and len(st.targets) == 1 and isinstance(st.targets[0], ast.Name) and any(st.value is r for r in reads):
+                    bound.add(st.targets[0].id)
+            # any ordering / equality test on the value, or a class test that sets EOF apart
+            tested = False
+            for c in nodes:
+                if isinstance(c, ast.Compare) and any(isinstance(o, (ast.Lt, ast.LtE, ast.Gt, ast.GtE, ast.Eq, ast.NotEq)) for o in c.ops):
+                    sides = [c.left] + list(c.comparators)
+                    if any((isinstance(s_, ast.Name) and s_.id in bound) or any(s_ is r or any(x is r for x in ast.walk(s_)) for r in reads) for s_ in sides):
+                        tested = True
+                if isinstance(c, ast.Call) and dotted(c.func) == "isinstance" and len(c.args) == 2 and isinstance(c.args[0], ast.Name) and c.args[0].id == v:
+                    tested = True
+            site = "%s.line / .column (%s)" % (v, cls)
+            if tested:
+                rep.ok(rule, f.file, f.qual, site, "the position is compared / the exception class is tested before use")
+            else:
+                rep.violation(rule, f.file, f.qual, site, "'%s' can be lark's UnexpectedEOF, whose line and column are the sentinel -1; they are turned into a position without any test, so a truncated file is reported at line -1 (and showing that line fails or shows an unrelated one)" % v)
+    rep.ok(rule, "-", "-", "positions read from lark exceptions that may be UnexpectedEOF", "%d judged" % n)
+    return n
